@@ -125,7 +125,7 @@ ParsePrefixed(bs, pos, bw, n) ==
     IF pos + 4 > Len(bs) + 1 THEN Bad("level-prefix-truncated")
     ELSE IF bs[pos + 3] >= 128 THEN Bad("level-block-truncated")      \* length >= 2^31: longer than any stream held here
     ELSE LET l == FromLE(Slice(bs, pos, 4))
-         IN IF pos + 4 + l > Len(bs) + 1 THEN Bad("level-block-truncated")
+         IN IF l > Len(bs) \/ pos + 4 + l > Len(bs) + 1 THEN Bad("level-block-truncated")
             ELSE LET r == Parse(bs, pos + 4, l, bw, n)
                  IN IF r.ok THEN [ok |-> TRUE, vals |-> r.vals, p |-> pos + 4 + l] ELSE r
 =============================================================================
